@@ -795,7 +795,7 @@ func runC21(rt tb, rec *evi.Recorder, cs *c21Case, pc, ps rawpeer.Plan) {
 	// load factor 1..6: the connection set-up takes 1-3 ms on an idle machine;
 	// the liveness bounds grow with it so that slowness is never read as a hang
 	lf := max(1, min(time.Since(dialT0)/(10*time.Millisecond), 6))
-	stallBound, stopBound := c21Bound*lf, c21StopBound*lf
+	stallBound, stopBound := c21Bound*lf, c21StopBound*min(lf, 2)
 	closed := false
 	defer func() {
 		if !closed {
@@ -1187,6 +1187,11 @@ func runC21(rt tb, rec *evi.Recorder, cs *c21Case, pc, ps rawpeer.Plan) {
 			fmt.Sprintf("no progress for %v: %d of %d replies sent, %d RequestNext seen, %d callbacks fired, Stop not requested", stallBound, srv.sent, n, srv.reqs, log.waitLen(0, 0, nil)), dump())
 		return
 	case "stop:hang":
+		if lf >= 5 && !rec.IsKnown(stopHangKey(mode, lim)) {
+			// a machine this slow proves nothing: inconclusive, not a violation
+			rec.Class("stop_hang_inconclusive_slow_machine")
+			return
+		}
 		k := stopHangKey(mode, lim)
 		noteStopHang(k)
 		fail(k, fmt.Sprintf("Stop() did not return: no progress for %v after it was called (%d RequestNext seen, %d replies sent, %d callbacks)", stopBound, srv.reqs, srv.sent, log.waitLen(0, 0, nil)), dump())
